@@ -83,6 +83,18 @@ func typeKey(t types.Type) string {
 func pinTypeCase(x ssa.Value, dyn string) Pin {
 	return func(v ssa.Value) (constant.Value, bool) {
 		switch e := v.(type) {
+		case *ssa.Call:
+			// a type-test helper such as Is[T](x): `_, ok := n.(T); return ok`
+			if len(e.Call.Args) != 1 || stripIface(e.Call.Args[0]) != x && e.Call.Args[0] != x {
+				return nil, false
+			}
+			if t := typeTestHelper(calleeOf(e)); t != nil {
+				if _, isIface := t.Underlying().(*types.Interface); isIface {
+					return nil, false
+				}
+				return constant.MakeBool(typeKey(t) == dyn), true
+			}
+			return nil, false
 		case *ssa.Extract:
 			ta, ok := e.Tuple.(*ssa.TypeAssert)
 			if !ok || !ta.CommaOk || ta.X != x || e.Index != 1 {
@@ -308,4 +320,24 @@ func (c *Ctx) pinMembership(base func(v ssa.Value) (constant.Value, bool)) Pin {
 		}
 		return constant.MakeBool(false), true
 	}
+}
+
+// typeTestHelper: f(n any) bool is exactly `_, ok := n.(T); return ok`; returns T (nil otherwise).
+func typeTestHelper(f *ssa.Function) types.Type {
+	if f == nil || len(f.Params) != 1 || len(f.Blocks) != 1 || f.Signature.Results().Len() != 1 || !isBoolType(f.Signature.Results().At(0).Type()) {
+		return nil
+	}
+	ret, ok := f.Blocks[0].Instrs[len(f.Blocks[0].Instrs)-1].(*ssa.Return)
+	if !ok || len(ret.Results) != 1 {
+		return nil
+	}
+	ex, ok := ret.Results[0].(*ssa.Extract)
+	if !ok || ex.Index != 1 {
+		return nil
+	}
+	ta, ok := ex.Tuple.(*ssa.TypeAssert)
+	if !ok || !ta.CommaOk || ta.X != ssa.Value(f.Params[0]) {
+		return nil
+	}
+	return ta.AssertedType
 }
